@@ -164,7 +164,11 @@ def run(ctx):
     ctx.ob("C28.D4-count-forwards", cname(ic, None, "one staged run around all repetitions"), ok, "" if ok else f"decorators {decos}", where=where(ic, ic.node))
     t = A.norm(c.node)
     npk = [v for n in A.walk_local(c.node) if isinstance(n, ast.Dict) for k, v in zip(n.keys, n.values) if A.const_str(k) == "num_points"]
-    ok = len(npk) == 1 and A.norm(npk[0]) == "num" and "msg_per_step: PerShot = per_shot if per_shot else bps.one_shot" in t
+    # default per_shot: `per_shot if per_shot else bps.one_shot` / `per_shot or bps.one_shot` (same object either way)
+    dflt = [s_.value for s_ in A.walk_stmts(c.node.body) if isinstance(s_, (ast.Assign, ast.AnnAssign)) and getattr(s_, "value", None) is not None
+            and A.norm(s_.targets[0] if isinstance(s_, ast.Assign) else s_.target) == "msg_per_step"]
+    ok = len(npk) == 1 and A.norm(npk[0]) == "num" and len(dflt) == 1 and A.norm(dflt[0]) in ("per_shot if per_shot else bps.one_shot", "per_shot or bps.one_shot",
+                                                                                                   "bps.one_shot if not per_shot else per_shot")
     ctx.ob("C28.D4-count-forwards", cname(c, None, "num_points = num; default per_shot = one_shot"), ok, "" if ok else "metadata / default changed", where=where(c, c.node))
 
 
